@@ -1,7 +1,37 @@
+import AuModel.CommonUnit
+import AuModel.UnitKey
 import Driver.Util
+import Driver.Cmd.C02
+
+/-! Driver commands for C07.
+
+  common <sexpr> ; <sexpr> ; …   →  dim=<pack> mag=<pack> input=<0|1> members=<k>
+     input   = the result is (identical to) one of the input units
+     members = number of units left after flatten/dedupe/eliminate-redundant
+-/
 open Au
 
-def dispatchC07 : List String → Option String
-  | _ => none
+def splitOnTok (sep : String) : List String → List (List String)
+  | [] => [[]]
+  | t :: rest =>
+    match splitOnTok sep rest with
+    | [] => [[t]]
+    | g :: gs => if t == sep then [] :: g :: gs else (t :: g) :: gs
 
-/-! Driver commands for C07. -/
+def cmdCommon (toks : List String) : String :=
+  let groups := splitOnTok ";" toks
+  match groups.mapM (fun g => match parseExpr g with
+      | some (p, []) => some p
+      | _ => none) with
+  | some ps =>
+    if ps.isEmpty then "bad-op" else
+    let env := envOf (ps.flatMap (·.atoms))
+    let us := ps.map (fun p => p.expr.eval U.keyLt)
+    let l := eliminateRedundant env U.keyLt (flatDedup U.keyLt (us.map U.commonParts))
+    let r := commonUnit env U.keyLt us
+    s!"dim={dimKey (r.dimOf env)} mag={magKey (r.magOf env)} input={b01 (us.contains r)} members={l.length}"
+  | none => "bad-op"
+
+def dispatchC07 : List String → Option String
+  | "common" :: args => some (cmdCommon args)
+  | _ => none
